@@ -27,7 +27,8 @@ ANCHORS = MUST_REACH
 MIN_NONTRIVIAL = {'quick': 300, 'thorough': 300}
 RULE = ('the C07 (parse), C04 (interpret), C15 (invocations of callable elements, with effects allowed in the '
         'operands of and / or) and C05 (prebuild) program streams, each program written in lower '
-        'case and in five keyword-case variants (UPPER, Capitalised, three random per-letter mixes) with '
+        'case and in keyword-case variants (UPPER, Capitalised, random per-letter mixes: five for the parse and prebuild '
+        'streams, three for the two executing streams) with '
         'identical layout. Non-trivial = the program contains a select, a boolean literal or a word operator; '
         'distinct by hash of (stream, lower-case text).')
 ASSUMPTIONS = ['recorded source text = ACT_SMT.Label and the Action_Semantics_internal of the home; everything '
@@ -78,7 +79,7 @@ def parse_variants(ctx, rng):
 def interpret_variants(ctx, rng):
     state = rng.getstate()
     lower = None
-    for case in ('lower',) + VARIANTS:
+    for case in ('lower',) + VARIANTS[:3]:
         rng.setstate(state)
         try:
             text = c04.run_case(ctx_proxy(ctx), rng, case_policy=case)
@@ -133,7 +134,7 @@ def invoke_variants(ctx, rng):
     state = rng.getstate()
     ref = None
     lower_text = None
-    for case in ('lower',) + VARIANTS:
+    for case in ('lower',) + VARIANTS[:3]:
         rng.setstate(state)
         gen = c15.ModelGen(rng, impure_logic=True, case=case)
         gen.make_elems()
